@@ -344,6 +344,9 @@ type RTx struct {
 	Create  bool // database file is created by this transaction
 	// RewriteOnly: pages in Mods are rewritten with identical bytes (SQLite may do this); default is new content.
 	SameBytes bool
+	// VersionBytes22: the modified pages other than page 1 carry the bytes 02 02 at offset 18 (where page 1 keeps its
+	// write/read version, which is how a WAL database is recognised); any b-tree or overflow page may.
+	VersionBytes22 bool
 }
 
 // RTxResult is what the simulator knows after a program ran.
@@ -617,6 +620,9 @@ func (c *Conn) RunRTx(tx RTx, cur *oracle.Image) (res RTxResult) {
 			content = append([]byte(nil), orig...)
 		} else {
 			content = MakePage(c.PageSize, p, c.ver(p, orig, p1v, unc))
+			if tx.VersionBytes22 {
+				content[18], content[19] = 2, 2
+			}
 		}
 		dirty[p] = content
 		if p <= newSize {
